@@ -22,7 +22,15 @@ use std::io::{BufReader, Cursor, Read, Seek, SeekFrom, Write};
 pub enum C18Case {
     /// text file: chromosome name index per run, run lengths, which line is long and by how much,
     /// final newline, bed (true) or bedGraph columns
-    Text { runs: Vec<(usize, usize)>, long_line: Option<(usize, usize)>, final_newline: bool, bed: bool },
+    Text {
+        runs: Vec<(usize, usize)>,
+        long_line: Option<(usize, usize)>,
+        final_newline: bool,
+        bed: bool,
+        /// BED name column made of two-byte UTF-8 characters (probes can land inside a character)
+        #[serde(default)]
+        utf8: bool,
+    },
     /// FileView over a 10-byte file: window [a, b)
     View { a: u64, b: u64, depth: usize },
 }
@@ -31,7 +39,7 @@ pub struct C18;
 
 const NAMES: [&str; 4] = ["chrA", "chrB", "chrC", "chrD"];
 
-fn text_lines(runs: &[(usize, usize)], long_line: Option<(usize, usize)>, bed: bool) -> Vec<String> {
+fn text_lines(runs: &[(usize, usize)], long_line: Option<(usize, usize)>, bed: bool, utf8: bool) -> Vec<String> {
     let mut lines = vec![];
     let mut n = 0usize;
     for (ci, len) in runs {
@@ -41,7 +49,9 @@ fn text_lines(runs: &[(usize, usize)], long_line: Option<(usize, usize)>, bed: b
                 Some((at, factor)) if at == n => factor * 12,
                 _ => 0,
             };
-            if bed {
+            if bed && utf8 {
+                lines.push(format!("{}\t{}\t{}\t\u{e9}{}{}", NAMES[*ci], s, s + 5, n, "\u{3b2}".repeat(pad / 2 + 3)));
+            } else if bed {
                 lines.push(format!("{}\t{}\t{}\tn{}{}", NAMES[*ci], s, s + 5, n, "x".repeat(pad)));
             } else {
                 lines.push(format!("{}\t{}\t{}\t1.5{}", NAMES[*ci], s, s + 5, "0".repeat(pad)));
@@ -122,8 +132,8 @@ fn records_view(path: &std::path::Path, start: u64, end: u64, bed: bool) -> Vec<
     v
 }
 
-fn c18_text(runs: &[(usize, usize)], long_line: Option<(usize, usize)>, final_newline: bool, bed: bool, out: &mut Outcome) {
-    let lines = text_lines(runs, long_line, bed);
+fn c18_text(runs: &[(usize, usize)], long_line: Option<(usize, usize)>, final_newline: bool, bed: bool, utf8: bool, out: &mut Outcome) {
+    let lines = text_lines(runs, long_line, bed, utf8);
     let bytes = text_bytes(&lines, final_newline);
     let mut tf = tempfile::NamedTempFile::new().expect("tempfile");
     tf.write_all(&bytes).unwrap();
@@ -133,6 +143,9 @@ fn c18_text(runs: &[(usize, usize)], long_line: Option<(usize, usize)>, final_ne
     let mut tags = vec![];
     if long_line.is_some() {
         tags.push("long_line".to_string());
+    }
+    if utf8 {
+        tags.push("non_ascii_text".to_string());
     }
     if lines.len() < 6 {
         tags.push("fewer_than_6_lines".to_string());
@@ -504,14 +517,18 @@ impl Check for C18 {
                         if quick && bed && ll.is_some() && !final_newline {
                             continue;
                         }
-                        v.push(C18Case::Text { runs: runs.clone(), long_line: ll, final_newline, bed });
+                        v.push(C18Case::Text { runs: runs.clone(), long_line: ll, final_newline, bed, utf8: false });
+                        if bed && final_newline && (ll.is_none() || ll.map(|x| x.1) == Some(3)) {
+                            v.push(C18Case::Text { runs: runs.clone(), long_line: ll, final_newline, bed, utf8: true });
+                        }
                     }
                 }
             }
         }
         // one larger file: many lines per run, so that probes land well inside runs
         for final_newline in [true, false] {
-            v.push(C18Case::Text { runs: vec![(0, 40), (1, 1), (2, 25), (3, 2)], long_line: Some((41, 40)), final_newline, bed: false });
+            v.push(C18Case::Text { runs: vec![(0, 40), (1, 1), (2, 25), (3, 2)], long_line: Some((41, 40)), final_newline, bed: false, utf8: false });
+            v.push(C18Case::Text { runs: vec![(0, 40), (1, 1), (2, 25), (3, 2)], long_line: Some((41, 40)), final_newline, bed: true, utf8: true });
         }
         let depth = if quick { 2 } else { 3 };
         for a in 0..=10u64 {
@@ -523,7 +540,7 @@ impl Check for C18 {
     }
     fn run(&self, case: &C18Case, out: &mut Outcome) {
         match case {
-            C18Case::Text { runs, long_line, final_newline, bed } => c18_text(runs, *long_line, *final_newline, *bed, out),
+            C18Case::Text { runs, long_line, final_newline, bed, utf8 } => c18_text(runs, *long_line, *final_newline, *bed, *utf8, out),
             C18Case::View { a, b, depth } => c18_view(*a, *b, *depth, out),
         }
     }
